@@ -194,16 +194,27 @@ def multi_start(rec):
     return None
 
 
-def build_items(out, prop, n_quick, variants=(0,), subsets=False, with_multi_start=False):
+def load_corpus_pool():
+    """the 63 corpus definitions (own reading of the corpus dialect, see DESIGN 9.4), as pool records"""
+    out = []
+    for name, txt in P.load_corpus(common.REPO):
+        d = P.parse_corpus(txt)
+        out.append(dict(id="K:" + name.replace(".puml", ""), events=len(P.events_of(d)), jobs=0, d=d, corpus=True))
+    return out
+
+
+def build_items(out, prop, n_quick, variants=(0,), subsets=False, with_multi_start=False, with_corpus=True):
     pool = load_pool()
     recs = select(pool, out.seed, out.tier, n_quick)
+    if with_corpus:
+        recs = recs + load_corpus_pool()
     items = []
     for rec in recs:
         jobs = complete_jobs(rec)
         for v in variants:
             items.append(dict(rec=rec, jobs=jobs, variant=v, subset=False))
         if subsets and len(jobs) >= 3:
-            rnd = random.Random(int(rec["id"], 16) % (2**31))
+            rnd = random.Random(int(hashlib.sha256(rec["id"].encode()).hexdigest()[:8], 16) if rec.get("corpus") else int(rec["id"], 16) % (2**31))
             sub = [j for j in jobs if rnd.random() < 0.6] or jobs[:1]
             if len(sub) < len(jobs):
                 items.append(dict(rec=dict(rec, id=rec["id"] + "-sub"), jobs=sub, variant=0, subset=True))
@@ -226,7 +237,7 @@ def standard_run(out, prop, n_quick, want, verdict, **kw):
     not_in_f = []
     for i, it in enumerate(items):
         cert = certs.get(i)
-        if cert is not None and not cert["inF"] and not it["rec"].get("multi_start"):
+        if cert is not None and not cert["inF"] and not it["rec"].get("multi_start") and not it["rec"].get("corpus"):
             not_in_f.append(it["rec"]["id"])
         kind = pre[i] if pre[i] else (verdict(it, cert) if cert is not None else None)
         if kind is None:
@@ -250,11 +261,12 @@ def standard_run(out, prop, n_quick, want, verdict, **kw):
         "samples": [dict(definition=P.show(sample["rec"]["d"]), n_jobs=len(sample["jobs"]), output=sample.get("text"))],
         "exhaustive": False,
         "definitions": len(recs), "learner_runs": len(items), "pool_size": len(pool),
+        "corpus_definitions": sum(1 for r in recs if r.get("corpus")),
         "jobs_certified": sum(len(it["jobs"]) for it in items if it.get("tokens")),
         "failure_kinds": kinds, "failing_keys": failing,
         "undecided_by_caps": sum(1 for c in certs.values() if c["rej_u"] or c["ni_u"]),
         "evaluations": len(items), "distinct_nontrivial": len({it["rec"]["id"] for it in items if it["rec"]["events"] >= 4}),
-        "rule": "frozen pool of fragment-F definitions (harness/pool/F.jsonl, each certified inF_b in coqc on every run); quick = seeded "
+        "rule": "frozen pool of fragment-F definitions (harness/pool/F.jsonl, each certified inF_b in coqc on every run) plus the 63 definitions of the repository's end-to-end corpus that carry no branch counts (read with the harness' own parser of the corpus dialect; loops run once and twice); quick = seeded "
                 "stratified slice, thorough = whole pool; job set = complete executions with loops run once and twice (plus a seeded "
                 "proper subset where stated); non-trivial = definition with >= 4 events",
         "trusted_base": common.std_trusted_base([
